@@ -15,7 +15,7 @@ theorem padWidth_wide (clusters : String → List String) (v : Verb) (s : String
 theorem padWidth_pads (clusters : String → List String) (v : Verb) (s : String) (h : v.hasWidth = true)
     (hw : (clusters s).length < v.width) :
     padWidth clusters v s =
-      (let pads := String.ofList (List.replicate (v.width - (clusters s).length) (if v.zero then '0' else ' '))
+      (let pads := String.ofList (List.replicate (v.width - (clusters s).length) (if v.zero && !v.minus then '0' else ' '))
        if v.minus then s ++ pads else pads ++ s) := by
   have : ¬ (clusters s).length ≥ v.width := by omega
   simp [padWidth, h, this]
